@@ -57,23 +57,27 @@ class DensityEstimator(ABC):
             c, w = self.mode, fraction / self(self.mode)
 
         simplex = array([[c, w], [c, 0.95 * w], [c - 0.05 * w, w]])
-        weight = 0.2 / self(self.mode)
         result = minimize(
             fun=self.__hdi_cost,
             x0=simplex[0, :],
             method="Nelder-Mead",
             options={"initial_simplex": simplex, "xatol": 1e-4 * w},
-            args=(fraction, weight),
+            args=(fraction,),
         )
         c, w = result.x
         return c - 0.5 * w, c + 0.5 * w
 
-    def __hdi_cost(self, theta, fraction, prob_weight):
+    def __hdi_cost(self, theta, fraction):
         c, w = theta
         v = array([c - 0.5 * w, c + 0.5 * w])
         Pa, Pb = self(v)
         Fa, Fb = self.cdf(v)
-        return (prob_weight * (Pa - Pb)) ** 2 + (Fb - Fa - fraction) ** 2
+        # Both terms are relative errors: with absolute errors the probability term is
+        # negligible for small fractions, and intervals far out in a tail (where both end
+        # densities are almost zero) cost almost nothing whatever probability they contain.
+        density_error = (Pa - Pb) / (Pa + Pb + 1e-300)
+        fraction_error = (Fb - Fa) / fraction - 1.0
+        return density_error**2 + fraction_error**2
 
     def plot_summary(self, filename=None, show=True, label=None):
         """
